@@ -44,6 +44,10 @@ def check_nfa_to_dfa_answer(N: NFA, answer: NFA):
     if N.Sigma != answer.Sigma:
         feedback.append('Error: the alphabet is wrong')
 
+    # N.B. the answer is parsed as an NFA, so epsilon transitions have to be excluded explicitly
+    if any(a == answer.epsilon and Q1 for (_, a), Q1 in list(answer.delta.items())):
+        feedback.append('Error: a DFA has no epsilon transitions')
+
     # check if the states in answer.Q have the right format
     for q in answer.Q:
         if not re.fullmatch(state_set_regex(), q):
